@@ -623,6 +623,13 @@ class Scheduler:
                 return None
             step, state = result
             job = self._derive_job(step)
+            if state == StepState.RUNNING:
+                # Whatever the previous run of this step created must be gone
+                # before the step counts as running:
+                # the next pop takes the products of a running step for definitions
+                # made by the run in progress and may dispatch them right away.
+                # The executor only gets to its own reset after hashing the inputs.
+                step.reset_for_rerun()
             step.set_state(state)
             logger.debug("Derived %s job: %s", state.name.lower(), job)
             logger.info("Pop %s", job.name)
